@@ -348,8 +348,11 @@ func genLoop(t *rapid.T) Spec {
 		return s
 	}
 	maxN := 40
-	if rapid.IntRange(0, 5).Draw(t, "loop.big") == 0 {
+	switch rapid.IntRange(0, 9).Draw(t, "loop.big") {
+	case 0, 1, 2:
 		maxN = 130
+	case 3:
+		maxN = 400
 	}
 	if ev.Thorough() && rapid.IntRange(0, 9).Draw(t, "loop.huge") == 0 {
 		maxN = 600
@@ -383,7 +386,12 @@ func genPolygon(t *rapid.T) Spec {
 		face := rapid.IntRange(0, 5).Draw(t, "pg.face")
 		level := rapid.IntRange(2, 5).Draw(t, "pg.level")
 		var rects []gen.LatticeRect
-		for i := 0; i < 4; i++ {
+		tries := 4
+		if rapid.IntRange(0, 3).Draw(t, "pg.many") == 0 {
+			tries = 12 // more than 12 loops: the polygon switches to cumulative edge offsets
+			level = 5
+		}
+		for i := 0; i < tries; i++ {
 			r := gen.DrawLatticeRect(t, fmt.Sprintf("pg.r%d", i), face, level, 24)
 			ok := true
 			for _, o := range rects {
@@ -408,6 +416,9 @@ func genPolygon(t *rapid.T) Spec {
 		s.Known = gen.FromPt(rects[0].CenterOfCell(rects[0].I0, rects[0].J0))
 		s.KnownIn = true
 		s.Family = fmt.Sprintf("lattice-shells=%d", len(rects))
+		if len(s.Rings) > 12 {
+			s.Family = "lattice-loops>12"
+		}
 		s.Scale = math.Max(1e-9, maxDist(s.Known.Pt(), s.Rings))
 		return s
 	}
